@@ -105,11 +105,11 @@ func verifDenAtValue(d []verifPair, k int) int {
 	return v
 }
 
-// verif:bound VerifC05Call String/Bytes/Array of length 1..3 (one hole possible), offset in [-2,2]; argument: integer in [-4,6], integer+0.5, or a tuple
+// verif:bound VerifC05Call String/Bytes/Array of length 1..3 (thorough: 1..4; one hole possible), offset in [-2,2]; argument: integer in [-4,6], integer+0.5, or a tuple
 // verif:cover VerifC05Call hit miss fractional wrong-kind
 func VerifC05Call() {
 	rep := verifChoice(3)
-	s, d := verifSeqValue(rep, 3, true)
+	s, d := verifSeqValue(rep, verifWiden(3, 4), true)
 	ctx := context.Background()
 	k := verifNondetIntIn(-4, 6)
 	switch verifChoice(3) {
@@ -156,11 +156,11 @@ func (b verifUFBody) Eval(ctx context.Context, local Scope) (Value, error) {
 
 func verifF(x int) int { return verifUF1("f", x) & 63 }
 
-// verif:bound VerifC05SeqArrow >> over String/Bytes/Array of length 1..3 (one hole possible), offset in [-2,2], transformer an uninterpreted function into [0,63]
+// verif:bound VerifC05SeqArrow >> over String/Bytes/Array of length 1..3 (thorough: 1..4; one hole possible), offset in [-2,2], transformer an uninterpreted function into [0,63]
 // verif:cover VerifC05SeqArrow with-hole no-hole
 func VerifC05SeqArrow() {
 	rep := verifChoice(3)
-	s, d := verifSeqValue(rep, 3, true)
+	s, d := verifSeqValue(rep, verifWiden(3, 4), true)
 	ctx := context.Background()
 	fn := NewFunction(*parser.NewScanner(""), IdentPattern("x"), verifUFBody{})
 	e := NewSeqArrowExpr(false)(*parser.NewScanner(""), s, fn)
@@ -194,12 +194,13 @@ func VerifC05SeqArrow() {
 	verifAssert("seqarrow-count", rs.Count() == verifDenCount(want))
 }
 
-// verif:bound VerifC05Concat a ++ b for String/Bytes/Array pairs of the same kind, each length 1..2, offsets in [-2,2]
+// verif:bound VerifC05Concat a ++ b for String/Bytes/Array pairs of the same kind, each length 1..2 (thorough: 1..3), offsets in [-2,2]
 // verif:cover VerifC05Concat clean collision
 func VerifC05Concat() {
 	rep := verifChoice(3)
-	a, da := verifSeqValue(rep, 2, false)
-	b, db := verifSeqValue(rep, 2, false)
+	maxLen := verifWiden(2, 3)
+	a, da := verifSeqValue(rep, maxLen, false)
+	b, db := verifSeqValue(rep, maxLen, false)
 	want := append([]verifPair(nil), da...)
 	na := a.Count()
 	for _, p := range db {
@@ -238,11 +239,11 @@ func verifDenDupIndexAny(d []verifPair) bool {
 	return r
 }
 
-// verif:bound VerifC05Offset n\seq for String/Bytes/Array of length 1..3, offset in [-2,2], n an integer in [-3,3] or integer+0.5
+// verif:bound VerifC05Offset n\seq for String/Bytes/Array of length 1..3 (thorough: 1..4), offset in [-2,2], n an integer in [-3,3] or integer+0.5
 // verif:cover VerifC05Offset integer fractional
 func VerifC05Offset() {
 	rep := verifChoice(3)
-	s, d := verifSeqValue(rep, 3, true)
+	s, d := verifSeqValue(rep, verifWiden(3, 4), true)
 	ctx := context.Background()
 	n := verifNondetIntIn(-3, 3)
 	if verifChoice(2) == 0 {
